@@ -145,6 +145,7 @@ def drive_ans(cm, np, rng, n_events, out, rep):
             stack, snaps = [], []
             if how < 0.25:
                 coder = A(); observe(coder, {"ev": "new"}); rep.cls("new")
+                p, st = coder.pos(); snaps.append((p, st, 0))      # the empty coder is a valid seek target, too
             elif how < 0.3:
                 coder.clear(); observe(coder, {"ev": "clear"}); rep.cls("clear")
             else:
@@ -187,7 +188,7 @@ def drive_ans(cm, np, rng, n_events, out, rep):
                 for d, s in reversed(list(zip(ds, syms))): stack.append((d, s))
                 rep.cls("enc_family_" + fam)
             observe(coder, {"ev": "enc", "items": items})
-            if rng.random() < 0.3:
+            if rng.random() < 0.3 or len(stack) <= 2:        # the first symbol boundaries of a stream in particular (state below 2^32)
                 p, st = coder.pos(); snaps.append((p, st, len(stack)))
         elif ch < 0.75:
             # pop: the top frames with their own models (or, below the base, with arbitrary models)
@@ -244,6 +245,7 @@ def drive_ans(cm, np, rng, n_events, out, rep):
             p, st, depth = rng.choice(snaps)
             coder.seek(p, st); stack = stack[:depth]; snaps = [s for s in snaps if s[2] <= depth]
             observe(coder, {"ev": "seek", "target": p, "target_state": limbs(st)}); rep.cls("seek")
+            if st < (1 << 32): rep.cls("seek_to_small_state")
         elif ch < 0.97:
             p, st = coder.pos()
             try:
@@ -428,6 +430,7 @@ def drive_chain(cm, np, rng, n_events, out, rep):
                     d = mods.desc(); got = [int(coder.decode(mods.build(d)))]; ds = [d]; rep.cls("dec_single")
                 elif form < 0.7:
                     d = mods.desc(); n = rng.randint(0, 4); got = [int(x) for x in coder.decode(mods.build(d), n)]; ds = [d] * n; rep.cls("dec_iid_array")
+                    if len(got) != n: rep.bad("ChainCoder.decode(model, %d) returned %d symbols without raising (running out of data must be an error, not a shorter result)" % (n, len(got)))
                 else:
                     fam = rng.choice(["uniform", "fast", "leaky"]); ds, _ = family(mods, rng, fam, rng.randint(1, 4))
                     got = [int(x) for x in decode_family(coder.decode, cm, np, mods, fam, ds)]; rep.cls("dec_family_" + fam)
@@ -446,6 +449,13 @@ def drive_chain(cm, np, rng, n_events, out, rep):
                 break
             for d, g in zip(ds, got): hist.append((d, g))
             observe(coder, {"ev": "dec", "items": [[mods.spec(d), g] for d, g in zip(ds, got)]})
+        if rng.random() < 0.3:
+            probe = coder.clone(); d = {"k": "uniform", "n": 256}; want = 8 * (k + 4)
+            try:
+                got = probe.decode(mods.build(d), want)
+                rep.bad("ChainCoder.decode(model, %d) on %d words of data returned %d symbols without raising" % (want, k, len(got)))
+            except AssertionError:
+                rep.cls("dec_iid_array_out_of_data")
         # ---- optionally continue from the exported remainders (suffix only, or prefix and suffix concatenated)
         mode = rng.choice(["same", "suffix", "concat"])
         prefix = []
@@ -532,9 +542,15 @@ def drive_symbol(cm, np, rng, n_events, out, rep):
                 if got != sym: rep.bad("StackCoder (python): pushed %d, popped %d (weights %r)" % (sym, got, w))
                 emit({"ev": "stack_dec", "w": w, "f32": f32, "sym": got}); rep.cls("stack_dec")
             elif r < 0.9:
+                if rng.random() < 0.4:
+                    # steer to an exact multiple of the word size with one-bit symbols, then export there
+                    _, b = st.get_compressed_and_bitrate()
+                    w1 = [1, 1]; e1 = S.huffman.EncoderHuffmanTree(np.array(w1, dtype=np.float64)); d1 = S.huffman.DecoderHuffmanTree(np.array(w1, dtype=np.float64))
+                    for _ in range((32 - b % 32) % 32 + 32 * rng.randint(0, 1)):
+                        sym = rng.randint(0, 1); st.encode_symbol(sym, e1); frames.append((w1, False, d1, sym)); emit({"ev": "stack_enc", "w": w1, "f32": False, "sym": sym})
                 words, bitrate = st.get_compressed_and_bitrate()
                 emit({"ev": "stack_export", "word_bits": wbits(words), "bitrate": int(bitrate)}); rep.cls("stack_export")
-                if bitrate % 32 == 0: rep.cls("stack_export_at_word_boundary")
+                if bitrate % 32 == 0 and bitrate > 0: rep.cls("stack_export_at_word_boundary")
             elif r < 0.95:
                 words, _ = st.get_compressed_and_bitrate(); words = [int(x) for x in words]
                 st = S.StackCoder(layout(np, rng, words, np.uint32)); emit({"ev": "stack_from", "word_bits": wbits(words)}); rep.cls("stack_reimport")
@@ -552,6 +568,20 @@ def drive_symbol(cm, np, rng, n_events, out, rep):
             q.encode_symbol(sym, enc); msg.append((w, f32, dec, sym)); emit({"ev": "queue_enc", "w": w, "f32": f32, "sym": sym}); rep.cls("queue_enc")
             if rng.random() < 0.2:
                 words, bitrate = q.get_compressed_and_bitrate(); emit({"ev": "queue_export", "word_bits": wbits(words), "bitrate": int(bitrate)}); rep.cls("queue_export")
+            if rng.random() < 0.15:
+                # a decoder obtained in the middle of the message is an inspection: the encoder goes on unchanged
+                mid = q.get_decoder(); rep.cls("queue_get_decoder_mid_stream")
+                for (w2, f2, dec2, sym2) in msg[:3]:
+                    got = int(mid.decode_symbol(dec2))
+                    if got != sym2: rep.bad("QueueEncoder.get_decoder() in the middle of a message: read %d, wrote %d" % (got, sym2))
+                words, bitrate = q.get_compressed_and_bitrate(); emit({"ev": "queue_export", "word_bits": wbits(words), "bitrate": int(bitrate)})
+            if rng.random() < 0.1:
+                # pad to an exact word boundary with one-bit symbols
+                _, b = q.get_compressed_and_bitrate()
+                w1 = [1, 1]; e1 = S.huffman.EncoderHuffmanTree(np.array(w1, dtype=np.float64)); d1 = S.huffman.DecoderHuffmanTree(np.array(w1, dtype=np.float64))
+                for _ in range((32 - b % 32) % 32):
+                    sym = rng.randint(0, 1); q.encode_symbol(sym, e1); msg.append((w1, False, d1, sym)); emit({"ev": "queue_enc", "w": w1, "f32": False, "sym": sym})
+                words, bitrate = q.get_compressed_and_bitrate(); emit({"ev": "queue_export", "word_bits": wbits(words), "bitrate": int(bitrate)}); rep.cls("queue_export_at_word_boundary")
         words, bitrate = q.get_compressed_and_bitrate(); words = [int(x) for x in words]
         emit({"ev": "queue_export", "word_bits": wbits(words), "bitrate": int(bitrate)})
         if rng.random() < 0.5:
